@@ -80,7 +80,8 @@ def concretise(case, r):
             items.append(((key, vid), None))
         else:
             items.append(((key, vid), _content(r, ln)))
-    assert all(0 <= k <= 0xFFFF and (v is None or 0 <= v <= 0xFE) for (k, v), _ in items)
+    if not all(0 <= k <= 0xFFFF and (v is None or 0 <= v <= 0xFE) for (k, v), _ in items):
+        raise MachineryError("concretisation left the property's domain: %r" % (items,))
     r.shuffle(items)
     return dict(items)
 
@@ -285,6 +286,51 @@ def histories(rec, r, n):
     return len(rec.evs) - n0
 
 
+def prior_config_histories(rec, r, thorough):
+    """set_config on files that ALREADY hold a configuration component, in every variation of that component's
+    description (REBOOT 00 / 01 / absent / two bytes / other value, ENC and FMT values, further tags, encrypted flag),
+    built by hand and read back from a written file, alone and between firmware components.  The tags of the new
+    component are a function of the call's arguments only (TLC judges them as for any other setcfg event)."""
+    import io, itertools
+    n0 = len(rec.evs)
+    reboots = [None, b"\x00", b"\x01", b"\x00\x00", b"\x01\x00", b"\x02", b""]
+    encs = [b"\x02", b"\x00", None]
+    fmts = [b"\x03", b"\x00"]
+    others = [{}, {0xC4: b"\x00\x12"}, {0xC7: b"\xAB\xCD", 0xC8: b"1.0"}]
+    combos = list(itertools.product(reboots, encs, fmts, others, [True, False]))
+    if not thorough:                                              # every REBOOT value with every ENC, the rest sampled
+        combos = [c for c in combos if c[2] == b"\x03" and not c[3] and c[4]] + r.sample(combos, 40)
+    for j, (rb, en, fm, oth, flag) in enumerate(combos):
+        desc = {0xC3: b"\x03"}
+        if en is not None:
+            desc[0xC2] = en
+        if fm is not None:
+            desc[0xC1] = fm
+        if rb is not None:
+            desc[0xC5] = rb
+        desc.update(oth)
+        old = rec.mk_comp(desc, b"\x03\x02\x00\x01\x00" + bytes(r.randrange(256) for _ in range(r.choice([0, 3, 11]))), None, flag)
+        fw = rec.mk_comp({0xC3: b"\x02", 0xC5: b"\x00"}, b"firmware")
+        comps = [[old], [fw, old], [old, fw]][j % 3]
+        f = rec.Bf3File({"k": "v"}, comps)
+        how = "hand-built"
+        if j % 2:                                                 # the same file as another tool would hand it over: written, read back
+            try:
+                buf = io.StringIO()
+                f.write_file(buf)
+                g = rec.Bf3File.read_file(io.StringIO(buf.getvalue()))
+                if any(c.description.get(0xC3) == b"\x03" for c in g.components):
+                    f, how = g, "read back"
+            except Exception:                                     # noqa: BLE001 -- variant not writable/readable: keep the hand-built file
+                pass
+        d = random_dict(r) if j % 4 else {(0x0101, 1): b"abc"}
+        src = ("prior-config", "%s, old description {%s}, encrypted flag %s" % (
+            how, ", ".join("%02X: %s" % (t, v.hex() or "''") for t, v in desc.items()), flag))
+        rec.rec_setcfg(d, _extra(r) if j % 3 == 0 else [], src, file=f)
+        rec.rec_setcfg(d, [], src, file=f)                        # and once more on the result
+    return len(rec.evs) - n0
+
+
 def _extra(r):
     return [bytes(r.randrange(256) for _ in range(r.choice([1, 2, 5, 17, 117, 120]))) for _ in range(r.choice([1, 1, 2, 3]))]
 
@@ -379,6 +425,7 @@ def run(tier):
         for form in FORMS:                                           # every form at least once on a fixed dictionary
             rec.rec_setcfg({(0x0101, 1): b"abc", (0x0102, None): None}, [b"\x02\xAA\xBB", b"\x01\xCC\xDD\x07\x01\x99"],
                            ("forms", form), form=form)
+        n_prior = prior_config_histories(rec, r, thorough)
         unsorted = {(0x0300, 2): b"late", (0x0300, 1): b"early", (0x0101, 7): b"\x01\x02", (0x0200, 9): None, (0x0100, None): None}
         for mform in MFORMS:                                         # assignments first, keys descending, deletions last
             rec.rec_tlv(unsorted, ("mapping-forms", mform), mform=mform)
@@ -431,7 +478,7 @@ def run(tier):
                 "conf_dict_to_tlv" if ev["op"] == "tlv" else "Bf3File.set_config",
                 _show(d) + (" handed over as %s" % ev["mform"] if ev.get("mform") not in (None, "dict") else "")
                 + ((", extra blocks as %s" % ev["form"]) if ev.get("form") not in (None, "omitted") else ""), clause,
-                (" (raised %s)" % ev["cls"]) if ev["k"] == "raise" else "") + (" [history %s]" % (src[1],) if src[0] == "history" else ""),
+                (" (raised %s)" % ev["cls"]) if ev["k"] == "raise" else "") + (" [%s %s]" % (src[0], src[1]) if src[0] in ("history", "prior-config") else ""),
                 {"event": small, "source": src[0], "tlc_case": src[1]})
         if not any(t in rejd for t in cex_tids):
             rep.cov["parts"]["selftest-model"]["counterexample on the real code"] = "accepted (defect not present in the code)"
@@ -443,7 +490,8 @@ def run(tier):
                        {"cases": len(chosen), "cases_length_le_3_available": len(cases3), "cases_length_4_sampled": len(cases4),
                         "events": n_s2c, "all_length_le_3": thorough})
         rep.add_trace("Trace_ConfigTlv (real conf_dict_to_tlv / set_config bytes judged by the declarative validity)", st,
-                      n_real, extra={"s2c_events": n_s2c, "random_dict_events": n_real - n_s2c - n_hist - len(FORMS) - 2 * len(MFORMS), "history_events": n_hist,
+                      n_real, extra={"s2c_events": n_s2c, "random_dict_events": n_real - n_s2c - n_hist - n_prior - len(FORMS) - 2 * len(MFORMS),
+                                     "prior_configuration_component_events": n_prior, "history_events": n_hist,
                                      "extra_block_forms": FORMS, "mapping_forms": MFORMS, "canaries": len(canaries),
                                      "rejected_real_events": len([t for t in rejd if t not in canaries])})
         for e in (rec.evs[0], rec.evs[n_s2c + 1], rec.evs[1]):
